@@ -656,10 +656,23 @@ class GA:
         return matmul(self.sp.lift(o), self)
 
     def __eq__(self, o):
-        raise Unsupported("elementwise comparison of generic arrays inside the code under contract")
+        raise Unsupported("elementwise (in)equality test of generic arrays inside the code under contract")
 
-    __ne__ = __lt__ = __le__ = __gt__ = __ge__ = __eq__
+    __ne__ = __eq__
     __hash__ = None
+
+    def _cmp(self, o, op):
+        """elementwise order comparison: decided at the witness point of the space, recorded as a path condition by the exact scalars (the result is a mask of Python bools,
+        only usable as `where=` of np.divide / condition of np.where: the identity proved afterwards holds on the region where the comparisons come out this way)"""
+        a, b = self, self.sp.lift(o)
+        shape = _bshape(a.shape, b.shape)
+        f = _np.frompyfunc(lambda x, y: bool({"<": x < y, "<=": x <= y, ">": x > y, ">=": x >= y}[op]), 2, 1)
+        return GA(self.sp, shape, f(a.data, b.data).astype(object))
+
+    def __lt__(self, o): return self._cmp(o, "<")
+    def __le__(self, o): return self._cmp(o, "<=")
+    def __gt__(self, o): return self._cmp(o, ">")
+    def __ge__(self, o): return self._cmp(o, ">=")
 
     def __bool__(self):
         raise Unsupported("truth value of a generic array")
@@ -1073,6 +1086,27 @@ class NP:
         if isinstance(a, X):
             return abs(a)
         return abs(self.sp.lift(a))
+
+    def divide(self, a, b, out=None, where=True, **k):
+        a, b = self.sp.lift(a), self.sp.lift(b)
+        shape = _bshape(a.shape, b.shape)
+        if where is True:
+            return type(b)(self.sp, shape, a.data / b.data) if isinstance(b, GFe) and len(shape) >= 2 else GA(self.sp, shape, a.data / b.data)
+        w = self.sp.lift(where)
+        o = self.sp.lift(out) if out is not None else self.sp.full(shape, 0)
+        shape = _bshape(shape, w.shape, o.shape)
+        pick = _np.frompyfunc(lambda x, y, m, z: (x / y) if m else z, 4, 1)
+        data = pick(*_np.broadcast_arrays(a.data, b.data, w.data, o.data)).astype(object)
+        cls = GFe if (isinstance(b, GFe) or isinstance(o, GFe)) and len(shape) >= 2 else GA
+        return cls(self.sp, shape, _np.array(data, dtype=object).reshape(_conc(shape)))
+
+    def where(self, cond, a, b):
+        c, a, b = self.sp.lift(cond), self.sp.lift(a), self.sp.lift(b)
+        shape = _bshape(c.shape, a.shape, b.shape)
+        pick = _np.frompyfunc(lambda m, x, y: x if m else y, 3, 1)
+        data = pick(*_np.broadcast_arrays(c.data, a.data, b.data)).astype(object)
+        cls = GFe if any(isinstance(v, GFe) for v in (c, a, b)) and len(shape) >= 2 else GA
+        return cls(self.sp, shape, _np.array(data, dtype=object).reshape(_conc(shape)))
 
     def sign(self, a):
         """sign of exact values: decided at the witness point of the space and recorded as a path condition (the identity proved holds on the region of that sign pattern)"""
